@@ -55,7 +55,7 @@ func corrIgnore(o corrOpts) *res.Summary {
 		for i := lo; i < hi; i++ {
 			seed := r.U64() % 1000000007
 			opt := gen.Options{Root: fmt.Sprintf("k%da", i), Ignores: true, NearMiss: i%4 == 0, TestFiles: i%5 == 0, Spelling: []int{0, 0, 1}[i%3]}
-			specs = append(specs, genSpec{seed, opt})
+			specs = append(specs, genSpec{seed: seed, o: opt})
 			seeds[opt.Root] = seed
 		}
 		mods, err := writeModule(dir, specs)
